@@ -249,6 +249,12 @@ def run(ctx, report: Report) -> None:
     if not stores:
         raise AnalysisError('ImmutableDict.__init__: store to self._d not found')
 
+    # ---- R6 ------------------------------------------------------------------------------------------
+    r6 = report.rule('C12-R6', 'the caller\'s prefix map is in force for every list except inside HTML-only definitions, and is restored', floor=30)
+    from .sem import list_context_table
+    list_context_table(ctx, r6)
+
+
 
 def implied_universal_rule(ctx, r4):
     """Both sites that add the implied universal selector use the same guard (shared with C05)."""
